@@ -745,6 +745,34 @@ func ruleSGNames(c *Ctx) {
 				}
 				c.Check(ok, fmt.Sprintf("%s/%s-arg", fnKey(fn), k.what), P.pos(call.Pos()), "applied to the struct field itself", "the helper is not applied to the struct's own field")
 			}
+			if k.what == "name" {
+				// the codec builder matches names exactly as the schema generator emits them: the helper's result is
+				// the map key as it stands, and the schema field's own name is the lookup key as it stands
+				call := helper(brc, k.kind)[shared]
+				nKey, nLook := 0, 0
+				okKey, okLook := true, true
+				for _, b := range brc.Blocks {
+					for _, in := range b.Instrs {
+						switch x := in.(type) {
+						case *ssa.MapUpdate:
+							if mt, ok := x.Map.Type().Underlying().(*types.Map); ok && typeKey(mt.Elem()) == "reflect.StructField" {
+								nKey++
+								if x.Key != ssa.Value(call) {
+									okKey = false
+								}
+							}
+						case *ssa.Lookup:
+							if mt, ok := x.X.Type().Underlying().(*types.Map); ok && typeKey(mt.Elem()) == "reflect.StructField" {
+								nLook++
+								if !strings.HasSuffix(accessPath(x.Index), "->Name)") && !strings.HasSuffix(accessPath(x.Index), ".Name") {
+									okLook = false
+								}
+							}
+						}
+					}
+				}
+				c.Check(nKey > 0 && nLook > 0 && okKey && okLook, fnKey(brc)+"/name-match-exact", P.pos(call.Pos()), "struct fields are indexed by the helper's result itself and looked up by the schema field's name itself", "the record builder transforms field names before matching them (folding case, trimming, ...): two struct fields whose names the schema generator keeps apart collapse onto one, and a record no longer reads back as written")
+			}
 		}
 	}
 }
